@@ -275,6 +275,41 @@ func runC16(rec *kit.Recorder, c c16Case) error {
 		return err
 	}
 
+	// stage 1b: "vacuum" - merging the tombstoned compound shard again drops the
+	// tombstoned repositories and keeps everything else
+	if nlive > 0 {
+		vdir := filepath.Join(tmp, "vacuum")
+		os.MkdirAll(vdir, 0o755)
+		cf, err := os.Open(dstName)
+		if err != nil {
+			return err
+		}
+		cif, err := index.NewIndexFile(cf)
+		if err != nil {
+			return err
+		}
+		vtmp, vdst, err := index.Merge(vdir, cif)
+		cif.Close()
+		if err != nil {
+			return kit.Fail("merge-error", "re-merging the tombstoned compound shard: %v", err)
+		}
+		if err := os.Rename(vtmp, vdst); err != nil {
+			return err
+		}
+		vs, closeV, err := openPaths([]string{vdst})
+		if err != nil {
+			return kit.Fail("load", "vacuumed shard: %v", err)
+		}
+		rv, err := stageSearch(vs, qs, specs, c.Chunk, nil)
+		closeV()
+		if err != nil {
+			return err
+		}
+		if err := diffStage("vacuum (merge of the tombstoned compound shard)", r0live, rv); err != nil {
+			return err
+		}
+	}
+
 	// stage 2: exploded back into simple shards (tombstoned repositories dropped)
 	edir := filepath.Join(tmp, "exploded")
 	os.MkdirAll(edir, 0o755)
@@ -311,7 +346,7 @@ func runC16(rec *kit.Recorder, c c16Case) error {
 
 func TestVerif_C16(t *testing.T) {
 	rec := kit.Open(t, "C16",
-		"2-4 generated repositories (>= 1 document each; priorities, 1-4 branches, symbols, sub-repositories, metadata, file tombstones, skipped documents) as simple shards -> index.Merge -> tombstone a subset -> index.Explode; a battery of Const(true) plus 4-7 generated queries (Whole content) and List are compared between inputs, merged shard, tombstoned merged shard (live repositories only) and exploded shards; non-trivial = >= 2 repositories and one with symbols or sub-repositories; distinct by hash",
+		"2-4 generated repositories (>= 1 document each; priorities, 1-4 branches, symbols, sub-repositories, metadata, file tombstones, skipped documents) as simple shards -> index.Merge -> tombstone a subset -> index.Merge of that shard again (vacuum) and index.Explode; a battery of Const(true) plus 4-7 generated queries (Whole content) and List are compared between inputs, merged shard, tombstoned merged shard (live repositories only) and exploded shards; non-trivial = >= 2 repositories and one with symbols or sub-repositories; distinct by hash",
 		"compared per file: checksum, content, branches, language, match ranges, sub-repository, version; per repository: id, tenant, URLs, branches, RawConfig, metadata, rank, priority, sub-repositories, document and content-byte counts",
 		"scores and order are excluded",
 	)
